@@ -89,6 +89,24 @@ def run(chk):
                     else:
                         ev['dev'] = 0
                     batch.add(ev, {'cls': name, 'N': N, 'nfft': nfft, 'kind': kind, 'seed': chk.seed, 'scaled': scaled, 'sampling': samp})
+    # long records (past 512 / 1024 / 2048 samples: any switch to a fast path) for the model-based classes: the two
+    # clauses that relate two different runs of the estimator (real vs complex-declared, time reversal)
+    for N, nfft in ((600, 600), (2048, 2048)) if quick else ((600, 600), (1030, 1031), (2048, 2048), (4100, 4100)):
+        xr = zoo.signal(rng, N, False, 'arma')
+        xc = zoo.signal(rng, N, True, 'arma')
+        for name in ('pyule', 'pburg', 'pma', 'parma', 'pminvar', 'pmodcovar', 'pcovar'):
+            oko, one = call_guard(psd_of, name, xr.copy(), nfft, over)
+            okt, two = call_guard(psd_of, name, xr.astype(complex), nfft, over)
+            ev = {'ev': 'onesided', 'cls': name, 'nfft': nfft, 'N': N, 'raised': not (oko and okt), 'scaled': False}
+            h = nfft // 2 + 1 if nfft % 2 == 0 else (nfft + 1) // 2
+            ev['dev'] = (obs.q(np.max(np.abs(one - 2 * two[:h])) / max(float(np.max(np.abs(two))), 1e-300)) if len(one) == h and len(two) == nfft else obs.QCAP) if oko and okt else 0
+            batch.add(ev, {'cls': name, 'N': N, 'nfft': nfft, 'kind': 'arma', 'seed': chk.seed})
+            for dt, x in (('complex', xc), ('real', xr)):
+                okb, b = call_guard(psd_of, name, x.copy(), nfft, over)
+                okr, r = call_guard(psd_of, name, np.conj(x[::-1]).copy(), nfft, over)
+                ev = {'ev': 'reversal', 'cls': name, 'dt': dt, 'nfft': nfft, 'N': N, 'raised': not (okb and okr), 'periodogram': False}
+                ev['dev'] = obs.q(np.max(np.abs(r - b)) / max(float(np.max(np.abs(b))), 1e-300)) if okb and okr and r.shape == b.shape else (obs.QCAP if okb and okr else 0)
+                batch.add(ev, {'cls': name, 'dt': dt, 'N': N, 'nfft': nfft, 'seed': chk.seed})
     # time reversal of the periodogram with EVERY window name (each window must be symmetric: C20), N even and odd
     for N, nfft in confs[:2]:
         for dt in ('complex', 'real'):
